@@ -155,6 +155,7 @@ type c05Model struct {
 	nextFb    uint8
 	haveFb    bool
 	track     verTrack
+	ambiguous bool // a packet arrived exactly 2^15 numbers away from its predecessor: which packet it is, is undefined
 }
 
 const c05Period = int64(1<<24) * 64000
@@ -167,6 +168,9 @@ func (m *c05Model) record(seq uint16, a int64) {
 	if len(m.recs) == 0 {
 		u = int64(seq)
 	} else {
+		if seq-uint16(m.last) == 0x8000 {
+			m.ambiguous = true
+		}
 		u = m.last + int64(int16(seq-uint16(m.last)))
 		if u < 0 {
 			u += 65536
@@ -225,6 +229,21 @@ func (m *c05Model) checkBuild(e *Env, decs []*twccDecoded, v int) (sig, msg stri
 	var prevEnd int64
 	for pi, d := range decs {
 		ub := hi - int64(int16(uint16(hi)-d.Base))
+		if uint16(hi)-d.Base == 0x8000 {
+			// exactly half the number space away from the highest number: the half-range rule does not say
+			// which way; take the reading for which arrivals were recorded
+			alt, has := hi-32768, func(b int64) bool {
+				for i := range d.Status {
+					if len(m.byU[b+int64(i)]) > 0 {
+						return true
+					}
+				}
+				return false
+			}
+			if alt >= 0 && has(alt) && !has(ub) {
+				ub = alt
+			}
+		}
 		if pi > 0 {
 			if ub < prevEnd {
 				// try the next cycle up (ranges of one build increase)
@@ -283,8 +302,14 @@ func (m *c05Model) checkBuild(e *Env, decs []*twccDecoded, v int) (sig, msg stri
 						continue
 					}
 					// must be the first copy still within the 500 ms history
+					// (an earlier copy inside the window does not count if it was not the earliest copy of all: it
+					// may itself have been ignored as a duplicate of a copy that was still held then and has been
+					// forgotten since - when old entries are forgotten is the recorder's business)
 					first := true
 					for _, j := range m.byU[u] {
+						if j != m.byU[u][0] {
+							continue
+						}
 						if j < idx && m.recs[j].a > a-500_000 && m.recs[j].a <= a && j != idx {
 							if d2 := a - m.recs[j].a; d2 > 125 {
 								first = false
@@ -407,6 +432,11 @@ func c05Check(e *Env, m *c05Model, pkts []rtcp.Packet, lo, hi int) {
 	e.Check()
 	decs, ok := c05DecodeAll(e, pkts)
 	if !ok {
+		return
+	}
+	if m.ambiguous {
+		// (the half-range rule gives no identity to a number exactly 2^15 away; nothing can be demanded afterwards)
+		e.Probe("ambiguous_half_range_jump")
 		return
 	}
 	for _, d := range decs {
